@@ -38,6 +38,9 @@ def h_node(n):
 
 
 def h_w(w):
+    if isinstance(w, float):
+        import struct
+        return "2 %d" % struct.unpack(">q", struct.pack(">d", w))[0]
     return "0 0" if w is None else "1 %d" % w
 
 
@@ -323,6 +326,7 @@ def gen_cases(kind, seed, n):
             ops = gen_mutations(r, names, 2 + r.below(9), wmode=wmode, collide=60)
             # the consequence clause: what the algorithms report for the graph this history produced
             wf = 1 if wmode in ("real", "zero") else 0
+            ops = ops + [("q", "alg_nbrs", [x]) for x in names]
             ops = ops + [("q", "alg_sssp", [x, wf, k % 3]) for k, x in enumerate(names)]
             if wmode != "zero":     # closeness / betweenness are defined for positive weights
                 ops += [("q", "alg_cc", [wf]), ("q", "alg_bc", [wf])]
